@@ -1,0 +1,56 @@
+//go:build verif
+
+package adder
+
+// Contracts for the govc verifier (/verif). Comment-only.
+
+//@ ghost var rpcN int
+//@ ghost var rpcLastSvc string
+//@ ghost var rpcLastMethod string
+//@ ghost var rpcLastArg any
+
+//@ extern rpc.Client.CallContext(ctx, dest, svcName, svcMethod, args, reply)
+//@   ensures rpcN == old(rpcN) + 1 && rpcLastSvc == svcName && rpcLastMethod == svcMethod && rpcLastArg == args
+//@   modifies rpcN, rpcLastSvc, rpcLastMethod, rpcLastArg, *reply
+
+// one BlockPut per destination; errs[i] is the outcome at dests[i]
+//@ extern rpc.Client.MultiCall(ctxs, dests, svcName, svcMethod, args, replies)
+//@   ensures len(res) == len(dests)
+//@   modifies nothing
+
+//@ spec func rpcFailure(e error) bool = uf("isRPCError", "bool", e)
+//@ extern rpc.IsRPCError(err)
+//@   ensures res == rpcFailure(err) && (err == nil ==> !res)
+
+//@ func ipldNodeToNodeWithMeta
+//@   opts trusted
+//@   modifies nothing
+
+// "block-put success rule": success only if at least one destination took the block, and afterwards
+// blocks only go to destinations that took every block so far
+//@ func (ba *BlockAdder) Add
+//@   property C13
+//@   ensures [success-needs-a-destination] err == nil ==> len(ba.dests) > 0 && (exists i int :: 0 <= i && i < len(errs) && errs[i] == nil || !rpcFailure(errs[i]))
+//@   ensures [dests-only-shrink] err == nil ==> forall k int :: 0 <= k && k < len(ba.dests) ==> in(ba.dests[k], elems(old(ba.dests)))
+//@   ensures [failure-keeps-dests] err != nil ==> ba.dests == old(ba.dests)
+//@   ensures [all-failed-is-an-error] len(old(ba.dests)) > 0 && (forall i int :: 0 <= i && i < len(errs) ==> errs[i] != nil) ==> err != nil
+//@   loop 1 (range errs)
+//@     invariant 0 <= numErrs && numErrs <= idx1 && (numErrs == idx1 <==> forall i int :: 0 <= i && i < idx1 ==> errs[i] != nil)
+//@     invariant forall k int :: 0 <= k && k < len(successfulDests) ==> in(successfulDests[k], elems(ba.dests))
+//@     invariant len(successfulDests) > 0 ==> exists i int :: 0 <= i && i < idx1 && (errs[i] == nil || !rpcFailure(errs[i]))
+//@     invariant ba.dests == old(ba.dests) && len(errs) == len(ba.dests)
+//@   modifies heap(BlockAdder)
+
+// the pin sent for added content: "-1 means everywhere": allocations emptied
+//@ func Pin
+//@   property C13
+//@   ensures rpcN == old(rpcN) + 1 && rpcLastSvc == "Cluster" && rpcLastMethod == "Pin" && rpcLastArg == any(pin)
+//@   ensures pin.ReplicationFactorMin < 0 ==> len(pin.Allocations) == 0
+//@   ensures pin.ReplicationFactorMin >= 0 ==> pin.Allocations == old(pin.Allocations)
+//@   ensures pin.Cid == old(pin.Cid) && pin.PinOptions == old(pin.PinOptions) && pin.MaxDepth == old(pin.MaxDepth) && pin.Type == old(pin.Type)
+//@   modifies rpcN, rpcLastSvc, rpcLastMethod, rpcLastArg, heap(api.Pin)
+
+//@ func BlockAllocate
+//@   property C13
+//@   ensures rpcN == old(rpcN) + 1 && rpcLastSvc == "Cluster" && rpcLastMethod == "BlockAllocate"
+//@   modifies rpcN, rpcLastSvc, rpcLastMethod, rpcLastArg
